@@ -137,7 +137,7 @@ def st_rect_case(draw):
     def f(t):
         return float(((geom.box_min_facet(W, l2 + t * v - u1, u2 + t * v - l1) + W @ svec) / nrm).min())
 
-    target = draw(st.sampled_from([1, -1])) * draw(st.sampled_from(gr.MARGIN_LEVELS)) * scale
+    target = draw(st.sampled_from([1, -1])) * draw(st.sampled_from([0.1, 0.3, 1.0] if small else gr.MARGIN_LEVELS)) * scale
     t = gr.solve_shift(f, target, -1e4 * scale, 1e4 * scale)
     r2 = {"lo": (l2 + t * v).tolist(), "hi": (u2 + t * v).tolist()}
     t = draw(gr.st_offset(m))
@@ -171,13 +171,20 @@ def st_rect_exact(draw):
 
 
 @st.composite
-def st_ell_case(draw):
+def st_ell_case(draw, small=False):
     spec = draw(gen.st_cone(max_extra=3))
     W = gen.cone_W(spec) if spec["kind"] in ("W", "diag") else np.asarray(gen.make_order(spec).ordering_cone.W)
     K, m = W.shape
-    scale = draw(gen.st_logfloat(1e-4, 1e2))
-    e1 = draw(gr.st_ell(m, scale * draw(st.sampled_from([1.0, 1.0, 0.1]))))
-    e2 = draw(gr.st_ell(m, scale * draw(st.sampled_from([1.0, 1.0, 0.1]))))
+    if small:
+        # small extents described by a large radius times a tiny, strongly correlated covariance (entries <= 1e-8):
+        # absolute tolerances on covariance entries must not change the region
+        scale = draw(gen.st_logfloat(3e-4, 1e-3))
+        e1 = draw(gr.st_ell(m, scale, a_range=(10, 50), always_rotated=True))
+        e2 = draw(gr.st_ell(m, scale, a_range=(10, 50), always_rotated=True))
+    else:
+        scale = draw(gen.st_logfloat(1e-4, 1e2))
+        e1 = draw(gr.st_ell(m, scale * draw(st.sampled_from([1.0, 1.0, 0.1]))))
+        e2 = draw(gr.st_ell(m, scale * draw(st.sampled_from([1.0, 1.0, 0.1]))))
     if draw(st.integers(0, 9)) == 0:
         e2 = {"c": list(e1["c"]), "S": e1["S"], "a": e1["a"]}
     s = draw(st_slack(K, scale))
@@ -190,10 +197,10 @@ def st_ell_case(draw):
         mg = geom.ell_dominated_margins(W, np.array(e1["c"]), np.array(e1["S"]), e1["a"], c2 + t * v, np.array(e2["S"]), e2["a"], sl)
         return float((mg / nrm).min())
 
-    target = draw(st.sampled_from([1, -1])) * draw(st.sampled_from(gr.MARGIN_LEVELS)) * scale
+    target = draw(st.sampled_from([1, -1])) * draw(st.sampled_from([0.1, 0.3, 1.0] if small else gr.MARGIN_LEVELS)) * scale
     t = gr.solve_shift(f, target, -1e4 * scale, 1e4 * scale)
     e2 = dict(e2, c=(c2 + t * v).tolist())
-    t = draw(gr.st_offset(m))
+    t = [0.0] * m if small else draw(gr.st_offset(m))
     return {"cone": spec, "r1": gr.shift_region(e1, t), "r2": gr.shift_region(e2, t), "slack": s}
 
 
@@ -204,4 +211,6 @@ COMPONENTS = [
               rule="dyadic cones/rectangles/slacks, exact rational oracle, boundary counts as dominated"),
     Component("ell_margin_targeted", check_ell, strategy=st_ell_case, quick=1200, thorough=30000,
               rule="ellipsoids with extents 1e-4..1e2, condition <=1e3, radius 0.1..50, per-facet slack"),
+    Component("ell_small_correlated", check_ell, strategy=lambda: st_ell_case(small=True), quick=300, thorough=8000,
+              rule="extents 1e-5..1e-3 written as radius 10..50 x rotated covariance with entries <= 1e-8; margins 0.1..1 x extent"),
 ]
